@@ -250,9 +250,12 @@ def check_trajectory(lib, spec):
     el = spec.get("_el") or {"a": 1.0}
     hs = {"a": 1e-3 * el.get("a", 1.0), "m": 1e-5}
     if order == 1:
-        h = hs.get(x, 1e-3) * (1.0 if spec["integrator"] != "whfast" else 0.3)
-        ref, err = richardson(fd1(F, x, h), 1.0, levels=2)
-        rel = {"ias15": 1e-6, "whfast": 1e-6, "bs": 1e-4}[spec["integrator"]]
+        # WHFast with a fixed step is a smooth map of the initial conditions and its variational equations are the exact
+        # tangent map: compare to round-off level (three Richardson levels), for any dt
+        wh = spec["integrator"] == "whfast"
+        h = hs.get(x, 1e-3) * (4.0 if wh else 1.0)
+        ref, err = richardson(fd1(F, x, h), 1.0, levels=3 if wh else 2)
+        rel = {"ias15": 1e-6, "whfast": 3e-9, "bs": 1e-4}[spec["integrator"]]
     else:
         hx, hy = 8 * hs.get(x, 1e-3), 8 * hs.get(y, 1e-3)
         ref, err = richardson(fd2(F, x, y, hx, hy), 1.0, levels=3)
@@ -310,7 +313,75 @@ def check_megno(lib, spec):
     return ok, {"megno": Y, "lyapunov": L, "orbits": spec["orbits"]}
 
 
-CHECKS = {"constructor": check_constructor, "trajectory": check_trajectory, "rescale": check_rescale, "megno": check_megno}
+def check_megno_order(lib, spec):
+    """MEGNO must not depend on other sets of variational particles, wherever they are in var_config."""
+    rb = lib.rb
+
+    def run(after, before):
+        sim = rb.Simulation()
+        sim.integrator = spec["integrator"]
+        sim.dt = 0.05
+        sim.add(m=1.)
+        sim.add(m=1e-3, a=1., e=0.05)
+        sim.add(m=1e-3, a=spec["a2"], e=0.03, f=1.)
+        sim.move_to_com()
+        if before:
+            v = sim.add_variation(); v.particles[1].x = 1.
+        sim.init_megno(seed=spec["seed"])
+        if after:
+            v = sim.add_variation(); v.particles[1].x = 1.
+        sim.integrate(spec["tmax"], exact_finish_time=0)
+        return sim.megno()
+    a, b, c = run(False, False), run(True, False), run(False, True)
+    ok = abs(a - b) <= 1e-9 * max(1, abs(a)) and abs(a - c) <= 1e-9 * max(1, abs(a))
+    return ok, {"megno_alone": a, "megno_set_added_after": b, "megno_set_added_before": c}
+
+
+def check_python_vary(lib, spec):
+    """The Python entry points (rebound.Particle(variation=..., variation2=...), Variation.vary) must hand back exactly what the
+    C constructor returns, for both orders of a pair and for the documented aliases l -> lambda, i -> inc."""
+    rb = lib.rb
+    x, y = spec["x"], spec.get("y")
+    sim = rb.Simulation()
+    sim.G = spec["G"]
+    prim = rb.Particle(**spec["prim"])
+    sim.add(prim)
+    po = lib.build(family(x, y), spec["G"], sim.particles[0], spec["el"])
+    sim.add(po)
+    name = x if y is None else x + "_" + y
+    ref = vec(lib.deriv(name, sim.G, sim.particles[0], sim.particles[1]), True)
+    alias = {"lambda": "l", "inc": "i"}
+    outs = {}
+    if y is None:
+        forms = [(x, None)] + ([(alias[x], None)] if x in alias else [])
+    else:
+        forms = [(x, y), (y, x)] + ([(alias.get(x, x), alias.get(y, y))] if (x in alias or y in alias) else [])
+    bad = []
+    for a, b in forms:
+        try:
+            p = rb.Particle(simulation=sim, particle=sim.particles[1], variation=a, variation2=b, primary=sim.particles[0])
+            got = vec(p, True)
+        except Exception as e:
+            bad.append(((a, b), repr(e)))
+            continue
+        if any(not (g == r or (g != g and r != r)) for g, r in zip(got, ref)):
+            bad.append(((a, b), got))
+    # Variation.vary writes the same particle into the variational slot
+    if y is None:
+        v = sim.add_variation()
+        v.vary(1, x)
+        if vec(v.particles[1], True) != ref:
+            bad.append((("vary", x), vec(v.particles[1], True)))
+    else:
+        va = sim.add_variation(); vb = sim.add_variation()
+        vw = sim.add_variation(order=2, first_order=va, first_order_2=vb)
+        vw.vary(1, y, x)
+        if vec(vw.particles[1], True) != ref:
+            bad.append((("vary", y, x), vec(vw.particles[1], True)))
+    return not bad, {"expected": ref, "mismatches": bad[:4]}
+
+
+CHECKS = {"constructor": check_constructor, "trajectory": check_trajectory, "rescale": check_rescale, "megno": check_megno, "megno_order": check_megno_order, "python_vary": check_python_vary}
 
 
 def pairs_available(lib):
@@ -358,6 +429,12 @@ def search(ctx, rebound, libdir):
         for x, y in pairs:
             do("constructor", dict(gen_elements(rng, family(x, y)), x=x, y=y), ("d2", x, y))
 
+    # (a') the Python entry points, every parameter and every exported pair in both orders
+    for x in PARAMS:
+        do("python_vary", dict(gen_elements(rng, family(x)), x=x), ("py1", x))
+    for x, y in pairs:
+        do("python_vary", dict(gen_elements(rng, family(x, y)), x=x, y=y), ("py2", x, y))
+
     # (b) trajectories
     firsts = C6 + PARAMS
     for integ in ("ias15", "bs", "whfast"):
@@ -365,6 +442,8 @@ def search(ctx, rebound, libdir):
             for rep in range(ctx.scale(2, 12)):
                 idx = rng.choice([1, 2])
                 spec = {"integrator": integ, "system": base_system(rng), "x": x, "order": 1, "index": idx}
+                if integ == "whfast":
+                    spec["dt"] = rng.choice([0.02, rng.uniform(0.05, 0.25)])
                 do("trajectory", spec, ("t1", integ, x))
         # mass as a plain Cartesian parameter (velocity fixed), star included
         for idx in (0, 1):
@@ -399,6 +478,18 @@ def search(ctx, rebound, libdir):
                      "e2": rng.uniform(0, 0.05), "a2": rng.uniform(1.9, 2.6), "f2": rng.uniform(0, 6), "seed": rng.randrange(1 << 30),
                      "orbits": ctx.scale(3000, 10000)}, ("megno", rep))
 
+    # MEGNO vs position of its configuration in var_config (fixed finding megno_whfast_config_order, /repo 11b9cc7; probe kept)
+    for integ in ("whfast", "ias15"):
+        spec = {"integrator": integ, "a2": rng.uniform(1.5, 1.9), "seed": rng.randrange(1 << 30), "tmax": rng.uniform(100, 300)}
+        try:
+            ok, det = check_megno_order(lib, spec)
+        except Exception as e:
+            ok, det = False, {"exception": repr(e)}
+        ctx.case(key=("megno_order", integ))
+        if not ok:
+            ctx.violation("megno_whfast_config_order" if integ == "whfast" else "megno_order:" + integ,
+                          {"check": "megno_order", "spec": spec, "detail": det}, True,
+                          "MEGNO changes when another set of variational particles is added after init_megno (%s)" % integ)
     # WHFast with N_active=1 (fixed finding var1_whfast_nactive_lt_starti, /repo 09c4229): probed under a stable key
     spec = {"integrator": "whfast", "system": base_system(rng), "x": "x", "order": 1, "index": 1, "whfast_nactive1": True}
     try:
